@@ -848,6 +848,7 @@ static carquet_status_t load_next_page_mmap(
         reader->page_loaded = true;
         reader->page_num_values = num_values;
         reader->page_values_read = 0;
+    reader->page_nonnull_read = 0;
         reader->page_header_size = (int32_t)header_size;
         reader->page_compressed_size = page_header.compressed_page_size;
 
@@ -944,6 +945,7 @@ static carquet_status_t load_next_page_mmap(
     reader->page_loaded = true;
     reader->page_num_values = (int32_t)decoded_count;
     reader->page_values_read = 0;
+    reader->page_nonnull_read = 0;
     reader->page_header_size = (int32_t)header_size;
     reader->page_compressed_size = page_header.compressed_page_size;
 
@@ -1137,6 +1139,7 @@ static carquet_status_t load_next_page_fread(
     reader->page_loaded = true;
     reader->page_num_values = (int32_t)decoded_count;
     reader->page_values_read = 0;
+    reader->page_nonnull_read = 0;
     reader->page_header_size = (int32_t)header_size;
     reader->page_compressed_size = page_header.compressed_page_size;
 
@@ -1207,11 +1210,26 @@ carquet_status_t carquet_read_next_page(
         to_copy = available;
     }
 
-    /* Copy values from decoded buffers */
+    /* Copy values from decoded buffers.  decoded_values holds only the
+     * non-null values of the page, densely packed, while the levels have one
+     * entry per row: the value cursor advances by the number of non-null rows
+     * delivered, not by the number of rows. */
     size_t value_size = get_value_size(reader->type, reader->type_length);
-    size_t offset = (size_t)reader->page_values_read * value_size;
+    size_t offset = (size_t)reader->page_nonnull_read * value_size;
 
-    memcpy(values, (uint8_t*)reader->decoded_values + offset, (size_t)to_copy * value_size);
+    int32_t non_null = to_copy;
+    if (reader->max_def_level > 0) {
+        non_null = 0;
+        for (int32_t i = 0; i < to_copy; i++) {
+            if (reader->decoded_def_levels[reader->page_values_read + i] == reader->max_def_level) {
+                non_null++;
+            }
+        }
+    }
+
+    memcpy(values, (uint8_t*)reader->decoded_values + offset, (size_t)non_null * value_size);
+    reader->page_nonnull_read += non_null;
+    reader->last_nonnull_count = non_null;
 
     if (def_levels) {
         memcpy(def_levels, reader->decoded_def_levels + reader->page_values_read,
